@@ -34,7 +34,7 @@ ASSUMPTIONS = ["reference decoders written from WHATWG urlencoded / RFC 6265 / R
                "assigning view *objects* (req.query = other.query) is not exercised, only pair lists"]
 LEVEL_TEXT = "randomised search per view with explicit round-trip and reference-decoder oracles"
 LEVEL_NOTE = "trusts the reference decoders in this file"
-QUICK_N, THOROUGH_N = 200_000, 5_000_000
+QUICK_N, THOROUGH_N = 56_000, 5_000_000
 
 # ------------------------------------------------------------------ strings
 _SEP = ["&", "=", ";", "+", "%", "%41", "%zz", " ", '"', "\\", ",", "#", "?", "/", ":", "'", "\t", "\r\n", "\n", "\r",
